@@ -269,20 +269,29 @@ def val_matches(model, real, exact):
 def compare_reading(mnodes, rnodes):
     if len(mnodes) != len(rnodes):
         return "node count"
+    prev_last = None          # the real value in front of the node (what a chained shortcut starts from)
     for m, r in zip(mnodes, rnodes):
         if m[0] != r[0]:
             return "node kind"
         if m[0] == "v":
             if m[1] != r[1]:
                 return "value"
+            prev_last = r[1]
         else:
             if m[1] != r[1] or m[2] != r[2] or len(m[3]) != len(r[3]):
                 return "shortcut shape"
-            exact = m[1] in ("R", "J")
             for i, (a, b) in enumerate(zip(m[3], r[3])):
-                # R / J: exact; xM, nI, nILOG: binary64 arithmetic against exact rationals (rel 1e-13)
-                if not val_matches(a, b, exact):
+                # J: exact.  xM, nI, nILOG: binary64 arithmetic against exact rationals (rel 1e-13).
+                # nR: the copies are exactly the real value they repeat (which may itself be the rounded result
+                # of an xM or nI in front: '1e-5 10m r'), and that value agrees with the model's to rel 1e-13
+                if not val_matches(a, b, m[1] == "J"):
                     return "shortcut value"
+                if m[1] == "R":
+                    ref = prev_last if m[2] else r[3][0]
+                    if b != ref:
+                        return "repeat is not an exact copy"
+            if r[3]:
+                prev_last = r[3][-1]
     return None
 
 
